@@ -2,6 +2,14 @@ use quote::{format_ident, quote};
 use syn::{punctuated::Punctuated, Data, DeriveInput, Field, Fields, Meta, Type, Variant};
 
 use super::models::{FieldAttribute, FieldAttributeBuilder, TypeAttributeBuilder};
+#[cfg(feature = "Copy")]
+use crate::common::{
+    bound::Bound,
+    where_predicates_bool::{
+        create_where_predicates_from_all_generic_parameters,
+        create_where_predicates_from_generic_parameters_check_types,
+    },
+};
 use crate::{
     common::where_predicates_bool::WherePredicates, supported_traits::Trait, TraitHandler,
 };
@@ -22,6 +30,10 @@ impl TraitHandler for CloneEnumHandler {
         .build_from_clone_meta(meta)?;
 
         let mut bound: WherePredicates = Punctuated::new();
+
+        // extra predicates of the `Copy` impl, which otherwise shares the header of the `Clone` impl
+        #[cfg(feature = "Copy")]
+        let mut copy_bound: WherePredicates = Punctuated::new();
 
         let mut clone_token_stream = proc_macro2::TokenStream::new();
         let mut clone_from_token_stream = proc_macro2::TokenStream::new();
@@ -213,6 +225,36 @@ impl TraitHandler for CloneEnumHandler {
                 }
             }
 
+            // With a custom clone method `Clone` is not a bitwise copy and its predicates do not ask for `Copy`,
+            // but a `Copy` impl needs every field type to be `Copy`.
+            #[cfg(feature = "Copy")]
+            if !contains_copy && traits.contains(&Trait::Copy) {
+                let copy_trait = syn::parse2(quote!(::core::marker::Copy)).unwrap();
+
+                match &type_attribute.bound {
+                    Bound::Auto => {
+                        let copy_types: Vec<&Type> = data
+                            .variants
+                            .iter()
+                            .flat_map(|variant| variant.fields.iter().map(|field| &field.ty))
+                            .collect();
+
+                        copy_bound = create_where_predicates_from_generic_parameters_check_types(
+                            &copy_trait,
+                            &copy_types,
+                            &[],
+                        );
+                    },
+                    Bound::All => {
+                        copy_bound = create_where_predicates_from_all_generic_parameters(
+                            &ast.generics.params,
+                            &copy_trait,
+                        );
+                    },
+                    _ => (),
+                }
+            }
+
             bound = type_attribute.bound.into_where_predicates_by_generic_parameters_check_types(
                 &ast.generics.params,
                 &syn::parse2(if contains_copy {
@@ -246,6 +288,18 @@ impl TraitHandler for CloneEnumHandler {
             where_clause.predicates.push(where_predicate);
         }
 
+        #[cfg(feature = "Copy")]
+        let copy_generics = {
+            let mut copy_generics = generics.clone();
+            let where_clause = copy_generics.make_where_clause();
+
+            for where_predicate in copy_bound {
+                where_clause.predicates.push(where_predicate);
+            }
+
+            copy_generics
+        };
+
         let (impl_generics, ty_generics, where_clause) = generics.split_for_impl();
 
         token_stream.extend(quote! {
@@ -261,6 +315,8 @@ impl TraitHandler for CloneEnumHandler {
 
         #[cfg(feature = "Copy")]
         if traits.contains(&Trait::Copy) {
+            let (impl_generics, ty_generics, where_clause) = copy_generics.split_for_impl();
+
             token_stream.extend(quote! {
                 impl #impl_generics ::core::marker::Copy for #ident #ty_generics #where_clause {
                 }
